@@ -165,7 +165,7 @@ class PopUpTarget(WidgetDecoration[WrappedWidget]):
 
     def pack(self, size: tuple[int, int] | None = None, focus: bool = False) -> tuple[int, int]:
         self._update_overlay(size, focus)
-        return self._current_widget.pack(size)
+        return self._current_widget.pack(size, focus)
 
 
 def _test():
